@@ -531,3 +531,48 @@ def run_shapes(prop, tier, seed, harness, workdir, T):
                                      "classes; effect-based oracle (connection stays open and registered, nobody else closed, invariants hold, bystander probes validated)",
                        "samples": [{"raw_line": lines[len(lines) // 3]}]}
     return out
+
+# ---- stalled receivers (C06 "unread output pending", C01 "every drain order", C05 "nobody else is stalled") ----
+def stall_behaviours():
+    A, B, C, D, F = "127.0.0.1", "127.0.0.2", "127.0.0.3", "127.0.0.4", "127.0.0.5"
+    def st(c, verb, *p): return {"c": c, "cmd": {"verb": verb, "p": [list(x) for x in p]}}
+    def reg(c, n, u): return [st(c, "!open"), st(c, "NICK", [n]), st(c, "USER", [u], ["Real"])]
+    cfg = {"operators": [{"name": "god", "pass": "godpass"}]}
+    base = reg(A, "alice", "u1") + reg(B, "bob", "u2") + reg(C, "carol", "u3") + reg(F, "flo", "u5") + \
+           [st(A, "JOIN", ["#one"]), st(B, "JOIN", ["#one"]), st(C, "JOIN", ["#one"]), st(A, "MODE", ["#one"], ["+v", "bob"]),
+            st(B, "MODE", ["bob"], ["+iw"]), st(A, "OPER", ["god"], ["godpass"]), st(B, "JOIN", ["#solo"])]
+    probes = [st(A, "NAMES", ["#one"]), st(C, "WHOIS", ["bob"]), st(C, "WHOWAS", ["bob"]), st(A, "LUSERS"), st(C, "ISON", ["bob"]), st(A, "LIST"),
+              st(C, "PRIVMSG", ["#one"], ["anybody: there?"]), st(A, "WALLOPS", ["ops: only"])]
+    out = []
+    def beh(name, steps):
+        out.append({"id": "stall-" + name, "cfg": cfg, "steps": base + steps, "record_from": len(base) + 1})
+    # the others are served while bob's connection is stalled; every ending of the stalled session leaves no trace
+    for ending in ("!close", "!rst"):
+        beh("end-" + ending.strip("!"), [st(B, "!stall", [F])] + probes + [st(B, ending)] + probes + reg(D, "bob", "u4") + [st(D, "JOIN", ["#one"])] + probes)
+    # KILL of a stalled user: the signal stays pending, the nick stays taken until the socket ends, then it is free; a newcomer keeps it
+    beh("kill-reuse", [st(B, "!stall", [F]), st(A, "KILL", ["bob"], ["go: away"]), st(A, "KILL", ["bob"], ["again"])] + probes +
+        [st(D, "!open"), st(D, "NICK", ["bob"]), st(D, "USER", ["u4"], ["Real"]), st(B, "!rst"), st(D, "NICK", ["bob"]), st(D, "JOIN", ["#one"]),
+         st(D, "MODE", ["bob"], ["+w"])] + probes + [st(F, "PRIVMSG", ["bob"], ["welcome: back"])])
+    # a stalled user is renamed, kicked, parted by others' actions; two sessions (one stalled) end at once
+    beh("kick-nick", [st(B, "!stall", [F]), st(A, "KICK", ["#one"], ["bob"], ["out"]), st(A, "INVITE", ["bob"], ["#one"])] + probes + [st(B, "!close"), st(C, "QUIT")] + [q for q in probes if q["c"] == A])
+    return out
+
+def run_stall(prop, harness, workdir, T):
+    import pipeline
+    res = {"tool_errors": [], "violations": [], "n": 0, "samples": []}
+    behs = stall_behaviours()
+    bf = os.path.join(workdir, "stall.beh.ndjson")
+    with open(bf, "w", encoding="utf-8") as f:
+        for b in behs: f.write(json.dumps(b, ensure_ascii=False) + "\n")
+    recs = pipeline.replay(harness, bf, os.path.join(workdir, "stall"), shards=len(behs))
+    mism, skipped, pi, n, errs = pipeline.validate(recs, parallel=len(behs))
+    for e in errs: res["tool_errors"].append("trace validation error in %s:\n%s" % e)
+    for x in pi: res["tool_errors"].append("path issue in stall prefix: " + json.dumps(x)[:300])
+    for m in mism:
+        m["kind"] = "seq"; m["behaviours"] = bf
+        if any("stall failed" in i for i in m.get("issue", [])):
+            res["tool_errors"].append("could not stall a connection: " + json.dumps(m.get("issue"))); continue
+        if prop in m.get("owners", []): res["violations"].append(m)
+    res["n"] = n
+    res["samples"] = [{"stall_behaviour": [s_["cmd"]["verb"] for s_ in behs[2]["steps"][behs[2]["record_from"] - 1:]][:14]}]
+    return res
